@@ -72,10 +72,19 @@ pub enum WKind {
     FmtDbg,
     /// `write_char` of both traits called directly, alternating
     Ch,
+    /// `Writer::write_list_element(first half of the text, second half, width derived from the text)`: the width may be
+    /// smaller than, equal to or larger than the name. The layout is the library's business (not pinned by any property)
+    ListElem,
+    /// `Writer::write_title(text)`
+    Title,
 }
 
 impl WKind {
     /// written through `core::fmt::Write`, where the sink's error value cannot be seen by the application
+    /// the library formats this output itself: only framing, not the bytes, can be judged
+    pub fn unpinned(&self) -> bool {
+        matches!(self, WKind::ListElem | WKind::Title)
+    }
     pub fn is_core_fmt(&self) -> bool {
         matches!(self, WKind::Fmt | WKind::Fmt2 | WKind::FmtCh | WKind::FmtPad | WKind::FmtDbg | WKind::Ch)
     }
@@ -94,6 +103,13 @@ impl WCall {
             WKind::Ln => format!("{}\n", self.text),
             WKind::FmtPad => format!("{:*<6}", self.text),
             WKind::FmtDbg => format!("{:?}", self.text),
+            // as the library lays it out today; only used where the layout does not matter (never compared byte for byte)
+            WKind::ListElem => {
+                let mid = self.text.chars().count() / 2;
+                let a: String = self.text.chars().take(mid).collect();
+                let b: String = self.text.chars().skip(mid).collect();
+                format!("  {}  {}\n", a, b)
+            }
             _ => self.text.clone(),
         }
     }
@@ -188,6 +204,14 @@ pub fn do_writes(
                     }
                 }
             }
+            WKind::ListElem => {
+                let mid = c.text.chars().count() / 2;
+                let a: String = c.text.chars().take(mid).collect();
+                let b: String = c.text.chars().skip(mid).collect();
+                let width = (c.text.len() * 7) % 12;
+                w.write_list_element(&a, &b, width)?;
+            }
+            WKind::Title => w.write_title(&c.text)?,
             WKind::Fmt2 => {
                 let mid = c.text.chars().count() / 2;
                 let a: String = c.text.chars().take(mid).collect();
